@@ -8,7 +8,10 @@ CHECKS = {
          "bounded exhaustive enumeration of decoder inputs and encoder values against independent strict codecs",
          "Every byte string of the stated finite sets (all strings of length <=2, all strings of length 3-5 over a 16-symbol "
          "structural alphabet, the substitution/deletion/insertion/truncation closure of valid encodings and key files) is "
-         "offered to every decoder and every value of the stated ranges is round-tripped; the oracle is an independent strict "
+         "offered to every decoder and every value of the stated ranges is round-tripped; every content length 0..300 (1100) and "
+         "65535/65536 is offered with the canonical length octets, every non-minimal form of 1..4 length octets and the indefinite "
+         "octet, top-level and nested; one DER object of each of 12 classes is driven through every history of 2..3 decode() calls "
+         "(accepted and refused encodings), each successful decode equal to a fresh object's; the oracle is an independent strict "
          "TLV/padding/PEM codec. Exhaustive within those bounds, which is where DER/padding/PEM faults live (length forms, "
          "boundaries), and far beyond the handful of malformed inputs in the test-suite.",
          "Trusted: the 60-line reference TLV classifier and padding predicates in mc/props/c13.py; values outside the enumerated "
@@ -65,7 +68,9 @@ CHECKS = {
          "lengths is enumerated completely (2.4 k configurations quick, 29 k thorough); each sealed message is offered back as the authentic tuple and as "
          "every single-bit flip of tag/ciphertext/AAD/nonce, every tag truncation and extension, other-length tags, block swaps, boundary shifts, 20 "
          "cross-message splices, KW/KWP forgeries built with the reference W function, through decrypt_and_verify and the update/decrypt/verify/hexverify "
-         "paths. Accept iff the reference tag for the RECEIVED values equals the presented tag; reject must be ValueError. 1 M (quick) / 14 M (thorough) tuples.",
+         "paths and decryption in place (decrypt(buf, output=buf); verify), plus associated data of 65279..65536 bytes (the boundaries of the modes' length "
+         "encodings) with a reduced alphabet. Accept iff the reference tag for the RECEIVED values equals the presented tag; reject must be ValueError. "
+         "2.3 M (quick) / 30 M (thorough) tuples.",
          "Trusted: mc/ref/modes.py, aes.py, des.py, chacha.py (self-tested on published vectors). Values from a 4-element alphabet; BLAKE2s comparison-MAC "
          "collisions out of scope.", "DESIGN.md 3/C01"),
  "C02": ("exploration",
@@ -73,7 +78,8 @@ CHECKS = {
          "Every legal key length of every cipher, every mode the dispatch table allows, all IV/nonce lengths, every CFB segment size, every CTR/Counter layout, "
          "every message length 0..8 blocks+1 (plus multi-kilobyte sizes), all 256 OCB last-nonce bytes, CCM header boundaries, crafted GCM/EAX counter-wrap "
          "nonces, KW/KWP payload sizes, library-chosen IV/nonce via an entropy tape with a reference peer that decrypts from cipher.iv/nonce alone, 3DES parity "
-         "and degenerate keys over all 256 byte values. 1.26 M (quick) / 5.6 M (thorough) cases, exhaustive within the grids.",
+         "and degenerate keys over all 256 byte values, ChaCha20.seek at positions around the counter word boundaries incl. every ordered pair of two seeks on "
+         "one object. 1.26 M (quick) / 5.6 M (thorough) cases, exhaustive within the grids.",
          "Trusted: mc/ref/{aes,des,blowfish,rc4,chacha,modes}.py and the RC2 model in mc/props/_c02_rc2.py; CAST-128 only against RFC 2144 vectors + the "
          "library's own block function under the reference modes.", "DESIGN.md 3/C02"),
  "C03": ("exploration",
@@ -89,7 +95,9 @@ CHECKS = {
          "lengths x sentinel lengths (6 M / 84 M calls), OAEP data blocks exhaustively over small alphabets with every Y / lHash / separator defect; the same "
          "patterns are then raw-RSA-encrypted so that PKCS1_v1_5.decrypt / PKCS1_OAEP.decrypt see exactly that EM (tiny keys from 88 to 512 bits plus 1024/1025-bit "
          "fixtures), every message length 0..max round-tripped with entropy tapes, wrong-length and >= n ciphertexts. Oracle: plaintext / ValueError / exactly the "
-         "caller's sentinel as RFC 8017 7.1.2 and 7.2.2 define.",
+         "caller's sentinel as RFC 8017 7.1.2 and 7.2.2 define. Encoded messages of 255..1034 bytes go through the C decoders with the separator at every "
+         "position; ONE cipher object per (key, configuration) is driven through every history of up to 3 (4) encrypt/decrypt calls, each outcome equal to a "
+         "fresh object's.",
          "Trusted: mc/ref/rsa.py, mc/ref/nt.py. Blinding randomness is pinned through the Crypto.Math._IntegerBase.Random seam.", "DESIGN.md 3/C07"),
  "C09": ("exploration",
          "bounded exhaustive enumeration of segmentations x buffer types x output styles per stateful class, differential against the one-shot call and a reference",
@@ -103,8 +111,8 @@ CHECKS = {
          "bounded exhaustive enumeration of KDF parameter grids against hashlib and pure-Python references",
          "PBKDF2 over 22 PRF choices (C fast path, generic path, custom PRFs) with every dkLen 1..3*hLen+1 and 6x6 password/salt boundary lengths, PBKDF1, HKDF "
          "(all lengths, 255*hLen boundaries, num_keys), scrypt (N x r x p x key_len grid, 2 k refusal probes), bcrypt (every password length 0..72 in thorough, "
-         "bcrypt_check on all password x hash pairs, mutated hashes), SP 800-108 counter mode, S2V over all vectors of 0..4 components. Two independent oracles "
-         "where hashlib allows.", "Trusted: hashlib, mc/ref/{kdf,blowfish,modes,aes}.py.", "DESIGN.md 3/C12"),
+         "bcrypt_check on all password x hash pairs, mutated hashes), SP 800-108 counter mode, S2V over all vectors of 0..4 components and over every history of "
+         "up to 5 (6) update/derive calls on one object. Two independent oracles where hashlib allows.", "Trusted: hashlib, mc/ref/{kdf,blowfish,modes,aes}.py.", "DESIGN.md 3/C12"),
  "C16": ("exploration",
          "bounded exhaustive differential enumeration across interchangeable implementations (AES-NI on/off, CLMUL on/off, three integer back-ends, three whole-library subprocess configurations)",
          "AES use_aesni True/False over 16 mode variants x key sizes x every length 0..273 x buffer offsets 0..3; GCM use_clmul True/False over nonce x AAD x message "
@@ -125,7 +133,8 @@ CHECKS = {
          "seeded multiples, all torsion points of the Edwards curves, the point with x = 0 where it exists): all ordered pairs for + += == !=, every point for "
          "negation/doubling/copy/xy/is_point_at_infinity, 36-41 boundary scalars (0, n-1, n, n+1, 2n, 2^bits, 2^(bits+9)+5, window patterns ...) x every point in "
          "four operator forms with the blinding seed owned through a seam, in-place operator histories to depth 2-4 with prefix replay, EccXPoint over every "
-         "low-order u and its aliases, all 16 key_agreement argument subsets from both parties' view, RFC 7748 iterated vectors.",
+         "low-order u and its aliases, all 16 key_agreement argument subsets from both parties' view, RFC 7748 iterated vectors; scalars 2^(64w)-1 filling "
+         "w = 1..words+4 machine words (carry out of the blinded scalar).",
          "Trusted: mc/ref/ec.py (curve constants self-validated at import; Wycheproof-checked) and the exact affine Montgomery arithmetic in mc/props/_c06_ref.py.",
          "DESIGN.md 3/C06"),
  "C04": ("exploration",
@@ -135,7 +144,10 @@ CHECKS = {
          "verifies and deterministic ones are byte-identical to the reference signer (FIPS mode through entropy tapes incl. rejected draws); every single-bit "
          "flip, wrong length, s+n, (r,s) boundary pairs, 45 hand-built BER/DER re-encodings, ~150 structured PKCS#1 v1.5 forgeries and every PSS padding position "
          "raw-signed with the private key, the complete small-order A x R x S grid for EdDSA: whatever the library accepts must be accepted by the standard's "
-         "verifier, rejection must be ValueError, hash/XOF objects must not be consumed.",
+         "verifier, rejection must be ValueError, hash/XOF objects must not be consumed. Also: the boundary private keys 1, 2, q-2, q-1 of every curve and "
+         "DSA domain (public half rebuilt from coordinates, verified under the negated point too), RSA moduli of exactly tLen+10/+11/+12 octets for every hash, "
+         "and object-reuse histories: ONE signature object per scheme configuration driven through every sequence of up to 3 (4) sign/verify calls with "
+         "different hash algorithms, each outcome equal to a fresh object's. A refusal by sign() where the standard defines the deterministic signature is a violation.",
          "Trusted: mc/ref/{rsa,dsa,ec,der}.py (Wycheproof-checked). Completeness for standard-valid signatures that sign() never emits is not demanded.",
          "DESIGN.md 3/C04"),
  "C05": ("exploration",
@@ -145,11 +157,15 @@ CHECKS = {
          "EccPoint, construct, SEC1, SPKI, OpenSSH, raw, RFC 5915 and PKCS#8, scalar boundaries, private/public and seed/point mismatches, every low-order "
          "Montgomery u and its aliases; generate() for RSA/DSA/ElGamal/ECC under seeded and boundary tapes (exact size, FIPS 186-4 margins); every single-bit flip "
          "of every numeric field of 38 encodings. Returned keys must satisfy the invariants, invariant-violating inputs must raise ValueError (a CPU-time timer "
-         "catches calls that never return).",
+         "catches calls that never return). RSA.generate is additionally offered, as first candidates for q, p itself, the next prime, and primes within "
+         "2^(bits/2-100) of p on the other side of a multiple of 2^(bits/2-100); DSA.generate gets tapes around multiples of q and q-1; every curve gets "
+         "'near misses': for every bit of the 64-bit-word representation (plain and Montgomery form) a point whose curve-equation sides differ in exactly that "
+         "bit, and Montgomery public values differing from the seed's in one such bit (6 k bit positions).",
          "Trusted: mc/ref/{nt,rsa,dsa,ec}.py. Refusal of valid inputs is only logged.", "DESIGN.md 3/C05"),
  "C08": ("exploration",
          "bounded exhaustive enumeration of the export configuration product per key against an independent reader (strict DER, PEM, PBES2 decryptor, OpenSSH parser), plus the full equality matrix",
-         "39 (43) keys incl. RSA sizes/exponents, DSA domains and three ECC keys per curve chosen so that integers have leading-zero and high-bit octets: the full "
+         "54 (58) keys incl. RSA sizes/exponents (moduli and exponents whose leading octet is 7f / 80 / 81 / ff, moduli of 127 and 128 content octets), DSA "
+         "domains and three ECC keys per curve chosen so that integers have leading-zero and high-bit octets: the full "
          "product format x pkcs/use_pkcs8 x passphrase x 84 protection strings x prot_params x compress (4.6 k / 19 k artefacts): re-import gives identical "
          "components, three wrong passphrases are refused, and an independent reader that never imports the library parses every artefact (canonical DER "
          "re-serialisation, OIDs, parameters, PBES2 parameters as requested, RFC 8410/5915 structure). Equality: all ordered pairs of 127 (231) key objects incl. "
@@ -161,7 +177,8 @@ CHECKS = {
          "binary operations in operator/in-place/int-operand forms, a complete box [-16,16]^2, modular pow and multiplication over 74 (212) moduli of 1..33 words, "
          "all residues modulo every prime < 200 for the modular square root; primality tests on every n < 2^13 (2^17) with Miller-Rabin bases dictated through "
          "the entropy tape, and on Carmichael/Chernick numbers, strong and Lucas pseudoprimes, prime powers, close-prime products; generated primes of every "
-         "size 160..192 etc.; primality repeated in child processes under the other two back-ends.",
+         "size 160..192 etc.; primality repeated in child processes under the other two back-ends. Square roots of k^2-1, k^2, k^2+1 for k of every bit "
+         "length up to 1100; the result of every out-of-place operation is updated in place and must leave all operands unchanged (no shared state).",
          "Trusted: Python int arithmetic, mc/ref/nt.py. Result types are C16's matter.", "DESIGN.md 3/C14"),
  "C18": ("exploration",
          "complete enumeration of the entropy-tape tree (every byte value at every draw, exact rational weights) up to a stated rejection depth; boundary tapes at cryptographic sizes",
@@ -178,7 +195,8 @@ CHECKS = {
          "(181 of 186 declared functions reached): every data length 0..80 (0..260 thorough) plus block/cache boundaries and 512/4096/8192/65536, at three "
          "placements, with returned / output= / in-place / overlapping / wrong-size outputs, constructor key/IV/nonce/tag/counter lengths, PKCS#1 decoders on "
          "every EM length 0..40, EC coordinates and scalars of 0..80 bytes, Montgomery operands of 1..280 bytes, and create/copy/use/delete histories to depth "
-         "3-4 over 112 classes. A second 'deep' mode relocates every buffer argument of every native call (also the internal ones) to guard pages. "
+         "3-4 over 112 classes, and every ordered pair of the nine curves as the two operands of ==, +, +=, set(), key equality and key "
+         "agreement (structures of different native libraries). A second 'deep' mode relocates every buffer argument of every native call (also the internal ones) to guard pages. "
          "843 k cases quick, 6.4 M thorough; each batch runs in a child process located by a progress file when it dies.",
          "Trusted: ASan, the guard-page arena and the ctypes proxy in mc/props/_c17_*.py (the library's own 8825 self-tests pass unchanged under the deep proxy). "
          "No malloc fault injection; a native call that never returns is logged, not judged.", "DESIGN.md 3/C17"),
